@@ -1,0 +1,34 @@
+//go:build verif
+
+package webp
+
+import "github.com/deepteams/webp/internal/verifhook"
+
+// Re-exports of the verification hook control surface (build tag "verif" only):
+// the harness lives outside this module and cannot import internal packages.
+
+type (
+	VerifFramePassFunc = verifhook.FramePassFunc
+	VerifPointFunc     = verifhook.PointFunc
+	VerifWorkersFunc   = verifhook.WorkersFunc
+	VerifPoolFunc      = verifhook.PoolFunc
+)
+
+const (
+	VerifPtRowClaim    = verifhook.PtRowClaim
+	VerifPtWaitEnter   = verifhook.PtWaitEnter
+	VerifPtWaitAdded   = verifhook.PtWaitAdded
+	VerifPtWaitLoop    = verifhook.PtWaitLoop
+	VerifPtWaitExit    = verifhook.PtWaitExit
+	VerifPtSignalStore = verifhook.PtSignalStore
+	VerifPtSignalBcast = verifhook.PtSignalBcast
+	VerifPtMBBegin     = verifhook.PtMBBegin
+	VerifPtMBEnd       = verifhook.PtMBEnd
+	VerifPtPhaseBRow   = verifhook.PtPhaseBRow
+	VerifPtFrameWorker = verifhook.PtFrameWorker
+)
+
+func VerifSetFramePass(f VerifFramePassFunc) { verifhook.SetFramePass(f) }
+func VerifSetPoint(f VerifPointFunc)         { verifhook.SetPoint(f) }
+func VerifSetWorkers(f VerifWorkersFunc)     { verifhook.SetWorkers(f) }
+func VerifSetPool(f VerifPoolFunc)           { verifhook.SetPool(f) }
